@@ -910,6 +910,188 @@ def _st_store():
 
 
 # ---------------------------------------------------------------------------
+# 3b. multi variation store (tuple-valued items, sparse regions; VARC)
+
+
+def _mplain(store, naxes):
+    regions = []
+    for r in store.SparseVarRegionList.Region:
+        reg = [(R.ZERO, R.ZERO, R.ZERO)] * naxes  # an axis that is not listed does not participate
+        for a in r.SparseVarRegionAxis:
+            reg[a.AxisIndex] = (Q(a.StartCoord), Q(a.PeakCoord), Q(a.EndCoord))
+        regions.append(tuple(reg))
+    vardata = [(list(vd.VarRegionIndex), [list(it) for it in vd.Item]) for vd in store.MultiVarData]
+    return regions, vardata
+
+
+def _mitem(ev, plain, varidx, m):
+    """tuple over locations of m-tuples, or str"""
+    regions, vardata = plain
+    if varidx == R.NO_VARIATION_INDEX:
+        return ((R.ZERO,) * m,) * len(ev.locs)
+    outer, inner = varidx >> 16, varidx & 0xFFFF
+    if outer >= len(vardata) or inner >= len(vardata[outer][1]):
+        return "index %d:%d not in store" % (outer, inner)
+    ris, items = vardata[outer]
+    row = items[inner]
+    if len(row) != m * len(ris) or any(ri >= len(regions) for ri in ris) or any(not isinstance(d, int) for d in row):
+        return "row %r does not hold %d-tuples for region indexes %r (of %d regions)" % (row, m, ris, len(regions))
+    cols = [(row[k * m : (k + 1) * m], ev.region(regions[ri])) for k, ri in enumerate(ris)]
+    return tuple(tuple(sum((d[c] * s[l] for d, s in cols if d[c]), R.ZERO) for c in range(m)) for l in range(len(ev.locs)))
+
+
+def check_mstore(acc, case):
+    """case: dict(k='mstore', axes, den, locs, order, dense, items=[[[int..] per master]..], keep=[bool..], eseed)"""
+    from fontTools.misc.vector import Vector
+    from fontTools.ttLib import TTFont
+    from fontTools.ttLib.tables.otBase import OTTableReader, OTTableWriter
+    from fontTools.ttLib.tables.otTables import MultiVarStore
+    from fontTools.varLib.models import VariationModel
+    from fontTools.varLib.multiVarStore import MultiVarStoreInstancer, OnlineMultiVarStoreBuilder
+
+    axes, den, locs = case["axes"], case["den"], [list(l) for l in case["locs"]]
+    naxes = len(axes)
+    locs_f = [_locdict(axes, l, den, case["dense"]) for l in locs]
+    order = case.get("order")
+    labels = ["mstore:axes=%d" % naxes]
+    ok, model = _lib(acc, "mstore-build", case, lambda: VariationModel(locs_f, axisOrder=list(order) if order is not None else None))
+    if not ok:
+        return False, labels
+    master_vecs = [tuple(Q(n / den) for n in l) for l in locs]
+    ev = _Eval(_store_locs(naxes, master_vecs, case["eseed"]))
+    loc_index = {lv: i for i, lv in enumerate(ev.locs)}
+
+    def build():
+        b = OnlineMultiVarStoreBuilder(list(axes))
+        b.setModel(model)
+        recs = []
+        for item in case["items"]:
+            mv = [Vector(v) for v in item]
+            base, idx = b.storeMasters(mv)
+            recs.append(dict(idx=idx, base=tuple(base), mv=[tuple(v) for v in item], rd=[tuple(d) for d in model.getDeltas(mv, round=round)]))
+        return b.finish(), recs
+
+    ok, res = _lib(acc, "mstore-build", case, build)
+    if not ok:
+        return False, labels
+    store, recs = res
+    plain0 = _mplain(store, naxes)
+    sups = [{ax: (Q(t[0]), Q(t[1]), Q(t[2])) for ax, t in sup.items()} for sup in model.supports]
+    V0, M = {}, {}
+    for r in recs:
+        m = len(r["mv"][0])
+        v = _mitem(ev, plain0, r["idx"], m)
+        if isinstance(v, str):
+            acc.fail("mstore-build", "bad-index", "storeMasters returned %#x: %s" % (r["idx"], v), case)
+            return False, labels
+        if any(not isinstance(x, int) for d in r["rd"] for x in d):
+            acc.fail("mstore-build", "unrounded-delta", "%r" % (r["rd"],), case)
+            return False, labels
+        for l, lv in enumerate(ev.locs):
+            lq = {ax: c for ax, c in zip(axes, lv) if c}
+            want = tuple(R.evaluate(sups[1:], [d[c] for d in r["rd"][1:]], lq) for c in range(m))
+            if want != v[l]:
+                acc.fail("mstore-build", "store-vs-model-deltas", "item %#x (masters %r) at %r: store gives %r, supports x rounded deltas give %r" % (r["idx"], r["mv"], [str(c) for c in lv], [str(x) for x in v[l]], [str(x) for x in want]), case)
+                return False, labels
+        for i, mval in enumerate(r["mv"]):
+            got = v[loc_index[master_vecs[i]]]
+            if any(abs(r["base"][c] + got[c] - mval[c]) > Fraction(1, 2) + Q(EPS * max(1, abs(mval[c]))) for c in range(m)):
+                acc.fail("mstore-build", "master-not-reproduced-within-rounding", "item %#x masters %r: at master %r base+delta = %r" % (r["idx"], r["mv"], locs_f[i], [str(r["base"][c] + got[c]) for c in range(m)]), case)
+                return False, labels
+        if r["idx"] != R.NO_VARIATION_INDEX:
+            V0[r["idx"]] = v
+            M[r["idx"]] = m
+        else:
+            labels.append("mstore:no-variation-index")
+    idxs = sorted(V0)
+    fvar_axes = [types.SimpleNamespace(axisTag=a) for a in axes]
+
+    def instancer_values():
+        inst = MultiVarStoreInstancer(store, fvar_axes)
+        out = {}
+        for l, lv in enumerate(ev.locs):
+            inst.setLocation({ax: float(c) for ax, c in zip(axes, lv) if c or case["dense"]})
+            for idx in idxs:
+                out[idx, l] = tuple(inst[idx])
+        return out
+
+    ok, iv = _lib(acc, "mstore-instancer", case, instancer_values)
+    if ok:
+        for (idx, l), v in iv.items():
+            scale = max([1.0] + [abs(d) for d in plain0[1][idx >> 16][1][idx & 0xFFFF]])
+            if len(v) != M[idx] or any(_off(a, b, EPS * scale) for a, b in zip(v, V0[idx][l])):
+                acc.fail("mstore-instancer", "value-vs-reference", "item %#x at %r: %r, exact %r" % (idx, [str(c) for c in ev.locs[l]], v, [str(x) for x in V0[idx][l]]), case)
+                break
+
+    def compare(clause, kind, plain, mapping, which, what):
+        for idx in which:
+            if idx not in mapping:
+                acc.fail(clause, kind + ":index-not-in-map", "%s: item %#x missing from the returned map" % (what, idx), case)
+                return
+            new = _mitem(ev, plain, mapping[idx], M[idx])
+            if isinstance(new, str):
+                acc.fail(clause, kind + ":bad-index", "%s: item %#x -> %#x: %s" % (what, idx, mapping[idx], new), case)
+                return
+            if new != V0[idx]:
+                l = next(i for i in range(len(new)) if new[i] != V0[idx][i])
+                acc.fail(clause, kind + ":value-changed", "%s: item %#x -> %#x at %r was %r, now %r" % (what, idx, mapping[idx], [str(c) for c in ev.locs[l]], [str(x) for x in V0[idx][l]], [str(x) for x in new[l]]), case)
+                return
+
+    # compile + decompile
+    font = TTFont()
+
+    def roundtrip():
+        s = copy.deepcopy(store)
+        w = OTTableWriter()
+        s.compile(w, font)
+        s2 = MultiVarStore()
+        s2.decompile(OTTableReader(w.getAllData()), font)
+        return _mplain(s2, naxes)
+
+    ok, p = _lib(acc, "mstore-compile", case, roundtrip)
+    if ok:
+        compare("mstore-compile", "decompile", p, {i: i for i in idxs}, idxs, "compile+decompile")
+    # subset (prunes regions)
+    keep = [idx for idx, k in zip(idxs, itertools.cycle(case["keep"])) if k]
+    s2 = copy.deepcopy(store)
+    ok, mp = _lib(acc, "mstore-subset", case, lambda: s2.subset_varidxes(set(keep)))
+    if ok:
+        p2 = _mplain(s2, naxes)
+        compare("mstore-subset", "subset", p2, mp, keep, "subset_varidxes(%r)" % (sorted(keep),))
+        used = {ri for ris, _ in p2[1] for ri in ris}
+        if used != set(range(len(p2[0]))):
+            acc.fail("mstore-subset", "unused-region-left", "regions %d, used %r" % (len(p2[0]), sorted(used)), case)
+        if len(p2[0]) < len(plain0[0]):
+            labels.append("mstore:subset-removed-regions")
+    labels.append("mstore:vardata=%d" % min(len(plain0[1]), 3))
+    return bool(len(idxs) >= 2 and len(locs) >= 3), labels
+
+
+def _st_mstore():
+    from hypothesis import strategies as st
+
+    @st.composite
+    def s(draw):
+        m = draw(_st_model_core(max_axes=3, dens=(4, 4, 2, 1, 8, 16384), max_extra=5, min_extra=1))
+        n = len(m["locs"])
+        m.pop("origin")
+        m.pop("mask")
+        items = []
+        for _ in range(draw(st.integers(1, 6))):
+            width = draw(st.integers(1, 4))
+            comp = st.one_of(st.integers(-50, 50), st.integers(-3000, 3000), st.just(0))
+            base = [draw(comp) for _ in range(width)]
+            rows = []
+            for i in range(n):
+                rows.append([b + (draw(comp) if draw(st.integers(0, 2)) else 0) for b in base])
+            items.append(rows)
+        m.update(k="mstore", items=items, keep=draw(st.lists(st.sampled_from([True, True, False]), min_size=1, max_size=5)), eseed=draw(st.integers(0, 2**32)))
+        return m
+
+    return s()
+
+
+# ---------------------------------------------------------------------------
 # 4./5. IUP and TupleVariation.optimize
 
 
@@ -1142,7 +1324,7 @@ def _rnd(q):
 # ---------------------------------------------------------------------------
 # driving
 
-CHECKS = {"tent": check_tent, "model": check_model, "store": check_store, "iup": check_iup, "tv": check_tv}
+CHECKS = {"tent": check_tent, "model": check_model, "store": check_store, "mstore": check_mstore, "iup": check_iup, "tv": check_tv}
 
 
 def jobs(tier, seed):
@@ -1162,18 +1344,20 @@ def jobs(tier, seed):
         gen("tent", 16, 9000)
         gen("model", 16, 5000)
         gen("store", 16, 2500)
+        gen("mstore", 8, 2000)
         gen("iup", 16, 7000)
         gen("tv", 16, 2500)
     else:
-        gen("tent", 4, 1750)
-        gen("model", 6, 700)
-        gen("store", 8, 225)
-        gen("iup", 5, 1000)
-        gen("tv", 3, 800)
+        gen("tent", 6, 1500)
+        gen("model", 8, 700)
+        gen("store", 10, 220)
+        gen("mstore", 3, 300)
+        gen("iup", 6, 1100)
+        gen("tv", 4, 800)
     return J
 
 
-STRATS = {"tent": _st_tent, "model": _st_model, "store": _st_store, "iup": lambda: _st_glyph("iup"), "tv": lambda: _st_glyph("tv")}
+STRATS = {"tent": _st_tent, "model": _st_model, "store": _st_store, "mstore": _st_mstore, "iup": lambda: _st_glyph("iup"), "tv": lambda: _st_glyph("tv")}
 
 
 def run_job(job):
@@ -1233,6 +1417,8 @@ MUST_OCCUR = [
     "store:quantization=>1",
     "store:retainFirstMap",
     "store:prune-removed-regions",
+    "mstore:subset-removed-regions",
+    "mstore:no-variation-index",
     "iup:inferred>=1",
     "iup:omitted>=1",
     "iup:duplicate-points",
